@@ -13,8 +13,10 @@ if [ -d tools/mkoverlay ]; then
 fi
 # pre-build every harness binary (warms the Go build cache, including flavour builds)
 python3 - "$@" <<'PY'
-import json, subprocess, sys, os
+import json, subprocess, sys, os, glob
 checks = json.load(open("checks.json"))
+for f in sorted(glob.glob("checks.d/*.json")):
+    checks.update(json.load(open(f)))
 ids = sys.argv[1:] or sorted(checks)
 seen = set()
 ok = True
